@@ -725,6 +725,23 @@ MetaBig ==
                 IN  Advance(Merge(<<F("len", BigAdd(d.base, Len(T))), F("ones", nones),
                                     F("zeros", nzeros), F("zeros_trait", nzeros)>>), objs)
 
+\* generators of perf_and_test_utils (outside the listed properties: reported as notes)
+TuEv ==
+    /\ IsEv("tu")
+    /\ LET e == Ev
+           o == NoObj
+           tag == "testutil." \o e.m
+           good == IF e.ok # 0 THEN FALSE
+                   ELSE IF e.m = "gen_sequence" THEN TuBounded(e.out, e.n, e.sigma)
+                   ELSE IF e.m = "gen_queries" THEN TuBounded(e.out, e.n, e.range)
+                   ELSE IF e.m = "gen_queries_pairs" THEN TuPairs(e.out, e.n, e.range, e.sigma)
+                   ELSE IF e.m = "gen_strictly_increasing_sequence" THEN TuIncreasing(e.out, e.n, e.u)
+                   ELSE IF e.m = "negate_vector" THEN e.out = TuNegate(e.v)
+                   ELSE IF e.m = "gen_rank_queries" THEN TuRankQueries(e.out, e.n, e.s)
+                   ELSE IF e.m = "gen_select_queries" THEN TuSelectQueries(e.out, e.n, e.s)
+                   ELSE TRUE
+       IN  Advance(Check(e, o, tag, good, e.ok, {0}), objs)
+
 \* word-level utilities (C17)
 UtilEv ==
     /\ IsEv("util")
@@ -766,7 +783,7 @@ Other ==
     /\ l <= NRec
     /\ Rec[l].k \notin {"reset", "newt", "newq", "newb", "meta", "qg", "relm", "relo", "uq", "mut",
                         "conv", "drop", "eq", "ith", "thr", "pure", "crash", "xb", "space", "util", "spstd",
-                        "newbig", "qbig", "metabig"}
+                        "newbig", "qbig", "metabig", "tu"}
     /\ Advance(ResOk(0, {}), objs)
 
 Finish ==
@@ -778,7 +795,7 @@ Finish ==
 Init == /\ l = 1 /\ objs = << >> /\ nbad = 0 /\ ncell = 0 /\ cov = {} /\ done = FALSE
 
 Next == \/ Reset \/ NewObj \/ Meta \/ QGrid \/ RelM \/ RelO \/ Uq \/ Mut \/ Conv \/ Drop
-        \/ EqEv \/ Ith \/ Thr \/ Pure \/ Crash \/ XB \/ SpaceEv \/ SpaceStdEv \/ UtilEv \/ NewBig \/ QBig \/ MetaBig \/ Other \/ Finish
+        \/ EqEv \/ Ith \/ Thr \/ Pure \/ Crash \/ XB \/ SpaceEv \/ SpaceStdEv \/ UtilEv \/ TuEv \/ NewBig \/ QBig \/ MetaBig \/ Other \/ Finish
 
 Spec == Init /\ [][Next]_vars
 
